@@ -3,10 +3,13 @@ CONSTANTS
   Component = "sign"
   Precisions = {1, 4, 8, 12}
   NMixed = 0
+  DEV_XmlDropsHorn = FALSE
+  DEV_ReaderStopsAtFirstUnset = FALSE
 INVARIANT LawIdempotent
 INVARIANT LawIdentityOnCarried
 INVARIANT LawPopulatedPreserved
 INVARIANT LawExpectedPopulated
 INVARIANT LawCarriedMonotone
 INVARIANT LawAccepts
+INVARIANT LawImplConforms
 INVARIANT LawSchema
